@@ -801,6 +801,9 @@ fn corpus() -> Vec<(&'static str, &'static str, Vec<&'static str>, &'static str)
         (S1, "query Q($v: Int) { a { a(x: $v) } }\n", vec!["c04:variable-at-position-with-default-rejected"], "nullable variable at a non-null argument that has a default value"),
         (S1, "subscription S { s s }\n", vec!["c04:subscription-same-root-field-twice-rejected"], "the same root field twice is one response key"),
         (S1, "query Q { a: n(x: 2147483647) b: n(x: -2147483648) c: n(x: 2147483648) d: n(x: -2147483649) a2: a { a(f: 2147483648, ids: [99999999999]) } }\n", vec![], "Int literals at and beyond the signed 32-bit range (Float and ID take any integer)"),
+        // Field Selection Merging is not implemented by check (and not in C03's rule list): accepted, `generate` then panics (C08)
+        (S1, "query Q { x: i { id } x: a { id } }\n", vec![], "two different fields under one response key (not checked: Field Selection Merging)"),
+        (S1, "query Q { x: n(x: 1) x: a { id } }\n", vec![], "a leaf and an object under one response key (not checked: Field Selection Merging)"),
     ]
 }
 
